@@ -18,11 +18,30 @@ pub fn probe_one(kind: &str) {
 }
 
 static FLAGGED: OnceLock<Result<BTreeSet<(RKind, &'static str)>, String>> = OnceLock::new();
+static ASSUME: std::sync::atomic::AtomicBool = std::sync::atomic::AtomicBool::new(false);
+
+/// Under the interpreter no child process can be spawned: assume the exemption set instead of
+/// observing it (a buffered reader is exempt for a table whose index is wider than its word).
+/// Only the tiny tier (Miri stage) does this; every native run observes the diagnostic.
+pub fn assume_instead_of_probing() {
+    ASSUME.store(true, std::sync::atomic::Ordering::SeqCst);
+}
 
 /// Set of (reader kind, table name) for which construction printed the diagnostic.
 pub fn flagged() -> Result<&'static BTreeSet<(RKind, &'static str)>, String> {
     FLAGGED
         .get_or_init(|| {
+            if ASSUME.load(std::sync::atomic::Ordering::SeqCst) {
+                let mut set = BTreeSet::new();
+                for kind in RKind::BUFFERED {
+                    for (t, bits) in [("gamma", 9usize), ("delta", 11), ("zeta", 12)] {
+                        if kind.word_bits() < bits {
+                            set.insert((kind, t));
+                        }
+                    }
+                }
+                return Ok(set);
+            }
             let exe = std::env::current_exe().map_err(|e| e.to_string())?;
             let mut set = BTreeSet::new();
             for kind in RKind::ALL {
